@@ -1,6 +1,7 @@
 package main
 
 import (
+	"fmt"
 	"verif/harness/gen"
 	"verif/harness/rel"
 	"verif/harness/run"
@@ -78,6 +79,10 @@ func c03Parts() (prefixes [][]gen.Op, kinds []string, rights []*gen.Pipeline, co
 		{&gen.Join{Kind: "leftouter", Right: tbl("C"), On: []gen.Expr{eq(lr("$left", "x"), lr("$right", "w"))}}},
 		{&gen.Join{Kind: "inner", Right: tbl("C", &gen.As{Name: gen.Ident{Name: "R2"}}, gt("w")), On: []gen.Expr{eq(lr("$left", "x"), lr("$right", "w"))}}, &gen.Count{}},
 		{gt("y"), &gen.Join{Right: tbl("C", gt("w")), On: []gen.Expr{eq(lr("$left", "y"), lr("$right", "w"))}}, &gen.Count{}},
+		// a second join directly followed by a row limit / sort / filter
+		{&gen.Join{Kind: "leftouter", Right: tbl("C"), On: []gen.Expr{eq(lr("$left", "x"), lr("$right", "w"))}}, take1},
+		{&gen.Join{Kind: "inner", Right: tbl("C"), On: []gen.Expr{eq(lr("$left", "y"), lr("$right", "w"))}}, take1},
+		{&gen.Join{Kind: "leftouter", Right: tbl("C", gt("w")), On: []gen.Expr{eq(lr("$left", "x"), lr("$right", "w"))}}, &gen.Sort{Kw: "sort", Terms: []gen.SortTerm{{X: gen.Col("w")}, {X: gen.Col("x")}, {X: gen.Col("y")}}}, &gen.Take{Kw: "limit", N: num("2")}},
 	}
 	return
 }
@@ -174,6 +179,32 @@ func c03Main(r *run.Runner) {
 		p := &gen.Pipeline{Source: gen.Ident{Name: "L"}, Ops: ops}
 		pr := gen.Print(gen.Single(p))
 		relCheck(w, states[w.ID], "C03", p, pr.Layout(pr.Uniform(" ")).Source, dbs, nil)
+	})
+	// names that coincide: an `as` name equal to a join key or a column of the condition, the same table joined twice
+	// (identical right-hand sides), a right-hand side that is the left table itself
+	coincide := []string{
+		"L | join kind=inner (R | as k) on k | project x, y", "L | join kind=inner (R | as y) on $left.x == $right.y | project x, y",
+		"L | join kind=inner (C | as x) on $left.x == $right.w | project x | join kind=inner (C | as w) on $left.x == $right.w | count",
+		"L | join kind=inner (C | as x) on $left.x == $right.w | project x, c1 = w | join kind=leftouter (C | as w) on $left.x == $right.w | project x, c1, w | sort by x, c1, w",
+		"L | join kind=inner (R | project rk = k, y | as rk) on $left.k == $right.rk | project k, x, y | join kind=inner (R | project rk = k, y2 = y | as k) on $left.k == $right.rk | project x, y, y2",
+		"L | as L2 | join kind=inner (L2 | project k2 = k, x2 = x) on $left.k == $right.k2 | project x, x2", "L | join kind=leftouter (L | project k2 = k, x2 = x) on $left.x == $right.x2 | project k, k2",
+		"L | project k, x | as x | join kind=inner (R) on k | project x, y", "L | extend y0 = x | join kind=inner (R | extend x0 = y) on $left.y0 == $right.x0 | project x, y, y0, x0",
+		"L | join kind=inner (R | where y > 0) on k | project x, y | join kind=inner (R | where y > 0 | project rk = k, y3 = y) on $left.y == $right.y3 | project x, y, rk",
+		"L | where x > 0 | join kind=inner (R) on k | project x, y | where x > 0 | join kind=leftouter (C | project w) on $left.x == $right.w | take 1",
+		"L | where x > 0 | join kind=innerunique (R) on k | project x, y | join kind=leftouter (C | project w) on $left.y == $right.w | limit 1",
+		"L | extend z = x | join kind=inner (R | project rk = k, y) on $left.k == $right.rk | join kind=leftouter (C | project ck = k, w) on $left.k == $right.ck | take 1 | project x, y, w",
+	}
+	r.Sweep("coinciding-names", int64(len(coincide)), func(w *run.Worker, item int64) {
+		if states[w.ID] == nil {
+			states[w.ID] = &relState{in: sem.NewInterner()}
+		}
+		p, err := gen.ReadPipeline(coincide[item])
+		if err != nil {
+			w.HarnessError(fmt.Sprintf("program does not read: %v\n%s", err, coincide[item]))
+			return
+		}
+		pr := gen.Print(gen.Single(p))
+		relCheck(w, states[w.ID], "C03", p, pr.Layout(pr.Uniform(" ")).Source, dbs, map[string]any{"family": "coinciding-names"})
 	})
 	nw := c03Wide(r, states, dbs)
 	r.Extra["wide"] = map[string]any{"programs": nw}
